@@ -151,7 +151,7 @@ def r3_r4_for_heads(f):
 
 
 def r7_mut_params(f):
-    """R7: `fn f(mut x: T)` -> `fn f(x: T) { let mut x = x; ...`"""
+    """R7: `fn f(mut x: T)` -> `fn f(x__0: T) { let mut x = x__0; ...` (the initial value stays nameable in contracts)"""
     c = f.code
     i = 0
     while c[i].text != "fn":
@@ -182,7 +182,7 @@ def r7_mut_params(f):
             depth -= 1
         if (first or (c[k - 1].text == "," and depth == 0)) and c[k].text == "mut" and c[k + 1].kind == "ident" and c[k + 2].text == ":":
             names.append(c[k + 1].text)
-            edits.append((c[k].pos, c[k + 1].pos, ""))
+            edits.append((c[k].pos, c[k + 1].end, c[k + 1].text + "__0"))
         first = False
         k += 1
     if not names:
@@ -190,7 +190,7 @@ def r7_mut_params(f):
     j = pc
     while c[j].text != "{":
         j += 1
-    edits.append((c[j].end, c[j].end, " " + " ".join("let mut %s = %s;" % (n, n) for n in names)))
+    edits.append((c[j].end, c[j].end, " " + " ".join("let mut %s = %s__0;" % (n, n) for n in names)))
     f.apply(edits, "R7")
 
 
@@ -367,6 +367,197 @@ def r16_format(f):
         f.apply([(c[i].pos, c[close].end, "fmt_opaque()")], "R16")
 
 
+def r19_underscore_assign(f):
+    """R19: the statement `_ = E;` -> `let _ = E;` (definitional; Verus' parser rejects the former)"""
+    c = f.code
+    edits = []
+    for i, t in enumerate(c):
+        if t.kind == "ident" and t.text == "_" and i + 1 < len(c) and c[i + 1].text == "=" and (i == 0 or c[i - 1].text in ("{", "}", ";")):
+            edits.append((t.pos, t.pos, "let "))
+    if edits:
+        f.apply(edits, "R19")
+
+
+REROOT = [("std::fs::", "fs::"), ("std::mem::", "mem::"), ("std::thread::", "thread::"), ("std::path::", "path::"), ("std::env::", "env::"), ("std::process::", "process::")]
+
+
+def r17_reroot(f):
+    """R17: paths into std modules that the prelude models (`std::fs::X`, `std::mem::take`, ..) are re-rooted onto the stub modules"""
+    edits = []
+    c = f.code
+    for a, b in REROOT:
+        want = [t.text for t in tokenize(a)]
+        n = len(want)
+        for i in range(len(c) - n + 1):
+            if c[i].text == want[0] and [t.text for t in c[i:i + n]] == want and not (i > 0 and c[i - 1].text == "::"):
+                edits.append((c[i].pos, c[i + n - 1].end, b))
+    if edits:
+        f.apply(edits, "R17")
+
+
+def _split_args(f, o, c_):
+    """top-level comma separated token ranges inside brackets o..c_ -> [(a, b)] inclusive"""
+    c = f.code
+    out, depth, start = [], 0, o + 1
+    for k in range(o + 1, c_):
+        t = c[k].text
+        if t in ("(", "[", "{"):
+            depth += 1
+        elif t in (")", "]", "}"):
+            depth -= 1
+        elif t == "," and depth == 0:
+            out.append((start, k - 1))
+            start = k + 1
+    if start <= c_ - 1:
+        out.append((start, c_ - 1))
+    return out
+
+
+CANCEL_SAFE = {"cancelled", "tick"}        # documented cancel-safe futures: dropping them loses nothing
+PARTIAL = {"read_until": "read_until_dropped"}  # dropping this future may have made partial progress (tokio docs)
+
+
+def r11_select_try_join(f):
+    """R11: tokio::select! -> match on an unconstrained choice, with the documented drop semantics of the losing futures;
+    tokio::try_join!(a, b) -> sequential evaluation joined by the verified prelude function try_joinN, async-block locals inlined"""
+    # ---- try_join!
+    while True:
+        c = f.code
+        hit = None
+        for i, t in enumerate(c):
+            if t.kind == "macro" and t.text == "try_join!" and i >= 2 and c[i - 1].text == "::" and c[i - 2].text == "tokio":
+                hit = i
+                break
+        if hit is None:
+            break
+        i = hit
+        o, cl = i + 1, f.br[i + 1]
+        args = _split_args(f, o, cl)
+        if len(args) not in (2, 3):
+            raise RuleError("R11: try_join! with %d operands" % len(args))
+        edits = []
+        texts = []
+        for (a, b) in args:
+            if a == b and c[a].kind == "ident":
+                name = c[a].text
+                # `let name = async { .. };` used nowhere else
+                uses = [k for k, t in enumerate(c) if t.kind == "ident" and t.text == name]
+                decl = [k for k in uses if k >= 1 and c[k - 1].text == "let" and c[k + 1].text == "=" and c[k + 2].text == "async" and c[k + 3].text == "{"]
+                if len(decl) != 1 or len(uses) != 2:
+                    raise RuleError("R11: try_join! operand `%s` is not a single-use async block local" % name)
+                k = decl[0]
+                bo, bc = k + 3, f.br[k + 3]
+                if c[bc + 1].text != ";":
+                    raise RuleError("R11: async block local `%s` not terminated by `;`" % name)
+                texts.append(f.tok_text(bo, bc))
+                edits.append((c[k - 1].pos, c[bc + 1].end, ""))
+            else:
+                texts.append(f.tok_text(a, b))
+        edits.append((c[i - 2].pos, c[cl].end, "try_join%d(%s)" % (len(args), ", ".join(texts))))
+        f.apply(edits, "R11")
+    # ---- select!
+    while True:
+        c = f.code
+        hit = None
+        for i, t in enumerate(c):
+            if t.kind == "macro" and t.text == "select!" and i >= 2 and c[i - 1].text == "::" and c[i - 2].text == "tokio":
+                hit = i
+                break
+        if hit is None:
+            break
+        i = hit
+        o, cl = i + 1, f.br[i + 1]
+        if c[o].text != "{":
+            raise RuleError("R11: select! must use braces")
+        arms = []
+        k = o + 1
+        while k < cl:
+            # PAT = EXPR => BLOCK [,]
+            a = k
+            while c[k].text != "=":
+                k += 1
+            pat = f.tok_text(a, k - 1)
+            e0 = k + 1
+            depth = 0
+            while not (c[k].text == "=>" and depth == 0):
+                if c[k].text in ("(", "[", "{"):
+                    depth += 1
+                if c[k].text in (")", "]", "}"):
+                    depth -= 1
+                k += 1
+            expr = (e0, k - 1)
+            if c[k + 1].text != "{":
+                raise RuleError("R11: select! arm body must be a block")
+            bo, bc = k + 1, f.br[k + 1]
+            arms.append((pat, expr, (bo, bc)))
+            k = bc + 1
+            if k < cl and c[k].text == ",":
+                k += 1
+        n = len(arms)
+        # classify each arm's future by its method name
+        kinds = []
+        for (pat, (ea, eb), blk) in arms:
+            if c[eb].text != ")" :
+                raise RuleError("R11: select! operand is not a method call")
+            po = f.br[eb]
+            m = c[po - 1].text
+            recv = f.tok_text(ea, po - 3) if c[po - 2].text == "." else None
+            if recv is None:
+                raise RuleError("R11: select! operand is not a method call")
+            argt = f.tok_text(po, eb)
+            if m in CANCEL_SAFE:
+                kinds.append(("safe", m, recv, argt))
+            elif m in PARTIAL:
+                kinds.append(("partial", m, recv, argt))
+            else:
+                raise RuleError("R11: select! over a future of unknown cancellation behaviour: .%s()" % m)
+        out = ["match select_choice(%d) {" % n]
+        for idx, (pat, (ea, eb), (bo, bc)) in enumerate(arms):
+            head = ("%d" % idx) if idx < n - 1 else "_"
+            drops = ""
+            for j, kd in enumerate(kinds):
+                if j != idx and kd[0] == "partial":
+                    drops += " %s.%s%s;" % (kd[2], PARTIAL[kd[1]], kd[3])
+            body = f.tok_text(bo + 1, bc - 1) if bc - 1 >= bo + 1 else ""
+            out.append("%s => { let %s = %s.await;%s %s }" % (head, pat, f.tok_text(ea, eb), drops, body))
+        out.append("}")
+        f.apply([(c[i - 2].pos, c[cl].end, "\n".join(out))], "R11")
+
+
+def r10_world(f, fn_names):
+    """R10: thread the ghost world: the extracted function gets a trailing `Tracked(w): Tracked<&mut World>` parameter and
+    every call to one of `fn_names` (functions / methods, by last path segment) gets a trailing `Tracked(w)` argument"""
+    c = f.code
+    edits = []
+    # own parameter list
+    i = 0
+    while c[i].text != "fn":
+        i += 1
+    po = i + 2
+    if c[po].text == "<":
+        d = 0
+        while True:
+            if c[po].text == "<":
+                d += 1
+            if c[po].text == ">":
+                d -= 1
+                if d == 0:
+                    break
+            po += 1
+        po += 1
+    pc = f.br[po]
+    last = pc - 1
+    sep = "" if c[last].text in (",", "(") else ","
+    edits.append((c[pc].pos, c[pc].pos, "%s Tracked(w): Tracked<&mut World>" % sep))
+    for k in range(pc + 1, len(c) - 1):
+        t = c[k]
+        if t.kind == "ident" and t.text in fn_names and c[k + 1].text == "(" and c[k - 1].text != "fn":
+            cl = f.br[k + 1]
+            sep = "" if c[cl - 1].text in (",", "(") else ", "
+            edits.append((c[cl].pos, c[cl].pos, "%sTracked(w)" % sep))
+    f.apply(edits, "R10")
+
+
 RULES = {
     "R1": r1_drop_tracing,
     "R3": r3_r4_for_heads,
@@ -376,11 +567,14 @@ RULES = {
     "R7": r7_mut_params,
     "R13": r13_continue,
     "R16": r16_format,
+    "R17": r17_reroot,
+    "R11": r11_select_try_join,
+    "R19": r19_underscore_assign,
 }
-ORDER = ["R1", "R16", "R7", "R5", "R6", "R3", "R4", "R13"]
+ORDER = ["R1", "R19", "R16", "R17", "R11", "R7", "R5", "R6", "R3", "R4", "R13"]
 
 
-def rewrite(text, origin, rules, substs=None):
+def rewrite(text, origin, rules, substs=None, world_calls=None):
     f = Frag(text, origin)
     done = set()
     if substs:
@@ -391,6 +585,8 @@ def rewrite(text, origin, rules, substs=None):
         if r in rules and RULES[r] not in done:
             RULES[r](f)
             done.add(RULES[r])
+    if world_calls is not None:
+        r10_world(f, world_calls)
     if substs:
         post = [s for s in substs if s.get("when") != "pre"]
         if post:
